@@ -51,6 +51,8 @@ def gen_file(rng):
         extra.append("e%d" % m)
     if rng.random() < 0.3:
         extra.append(rng.choice(["crps", "mae", "elevation"]))
+    if rng.random() < 0.12 and any(c[0] in "pq" and c != "pit" for c in extra):
+        cols = []                      # a purely probabilistic file: neither obs nor fcst (the header check accepts p* / q* columns)
     cols += extra
     meta = {"lat": rng.random() < 0.8, "lon": rng.random() < 0.8, "elev": rng.random() < 0.7}
     values = {}
